@@ -48,6 +48,7 @@ type Arg struct {
 type printer struct {
 	vars     map[string]json.RawMessage
 	shared   map[string]string
+	noShare  bool
 	varDecls []string
 	frags    []string
 	nvar     int
@@ -82,7 +83,7 @@ func (p *printer) sel(b *strings.Builder, s *Sel) {
 					// occurrences of the same field with the same argument value share one variable: two
 					// selections with the same response key must have identical arguments to be mergeable
 					key := s.Name + "\x00" + a.Name + "\x00" + a.Type + "\x00" + a.Val
-					if n, ok := p.shared[key]; ok {
+					if n, ok := p.shared[key]; ok && !p.noShare {
 						name = n
 					} else {
 						p.nvar++
@@ -121,7 +122,13 @@ func (p *printer) sel(b *strings.Builder, s *Sel) {
 
 // Print renders the operation as GraphQL text and returns the variables it uses.
 func Print(op *Op) (string, map[string]json.RawMessage) {
-	p := &printer{vars: map[string]json.RawMessage{}, shared: map[string]string{}}
+	return PrintVars(op, true)
+}
+
+// PrintVars is Print; with share=false every argument occurrence gets its own variable, so that the text does not
+// depend on which argument values happen to be equal (reuse lane: same text, other variables).
+func PrintVars(op *Op, share bool) (string, map[string]json.RawMessage) {
+	p := &printer{vars: map[string]json.RawMessage{}, shared: map[string]string{}, noShare: !share}
 	var body strings.Builder
 	p.sels(&body, op.Sel)
 	var b strings.Builder
